@@ -65,12 +65,30 @@ Complaints(r) ==
            /\ ~\E v \in Universe(A, B) : SMem(v, r.clean, r.env, FALSE) # SMem(v, r.raw, r.env, FALSE)
         THEN {"reconverted-type-is-not-the-same-semantic-type"} ELSE {})
 
+\* ------------------------------------------------------------------ source stage (ev = "src")
+\* the operation written in TypeScript and compiled by the real frontend; va / vb / vt: verdicts of the validators of A, B and
+\* T = op(A, B) on the same JSON-like probes ("E" = the validator threw)
+SrcComplaints(r) ==
+  IF r.outcome \in {"panic", "abort", "timeout", "emit_error"} THEN {"compile-" \o r.outcome}
+  ELSE IF r.outcome # "code" THEN {}                   \* a diagnostic: the frontend declines (C04 judges diagnostics)
+  ELSE IF r.load # "ok" THEN {"emitted-module-does-not-load"}
+  ELSE LET Ch(str, i) == SubSeq(str, i, i) IN
+       (IF \E i \in 1..Len(r.vt) : Ch(r.vt, i) = "E" THEN {"materialised-validator-threw"} ELSE {})
+       \* the set-difference law is required where the subtrahend is null alone (Exclude<X | null, null>, NonNullable): elsewhere
+       \* the result may have needed a negation, which is judged on the engine level above (negationDroppedInIntersection), and
+       \* optional properties make null / absent contested between the engine and the validators
+       \cup (IF r.op = "nonnull" /\ \E i \in 1..Len(r.vt) :
+                   Ch(r.vt, i) # "E" /\ Ch(r.va, i) # "E" /\ Ch(r.vb, i) # "E" /\ (Ch(r.vt, i) = "T") # (Ch(r.va, i) = "T" /\ Ch(r.vb, i) = "F")
+             THEN {"exclude-is-not-the-set-difference-of-its-operands"} ELSE {})
+
 Explain(kind) ==
   IF kind = "negation-dropped-changes-meaning" /\ "negationDroppedInIntersection" \in Open THEN "negationDroppedInIntersection" ELSE "NEW"
 
 Observe ==
   /\ l <= Len(Rec)
-  /\ bad' = IF l = 1 THEN {} ELSE {[kind |-> k, class |-> Explain(k)] : k \in Complaints(Rec[l])}
+  /\ bad' = IF l = 1 THEN {}
+            ELSE IF Rec[l].ev = "src" THEN {[kind |-> k, class |-> Explain(k)] : k \in SrcComplaints(Rec[l])}
+            ELSE {[kind |-> k, class |-> Explain(k)] : k \in Complaints(Rec[l])}
   /\ l' = l + 1
 TraceInit == l = 1 /\ bad = {}
 TraceSpec == TraceInit /\ [][Observe]_tvars
